@@ -51,6 +51,10 @@ func domDepth(b *ssa.BasicBlock) int {
 }
 
 func (s *Session) localLookup(fr *Frame, st *State, at *ssa.BasicBlock) func(string) (Val, bool) {
+	return s.localLookupAt(fr, st, at, -1)
+}
+
+func (s *Session) localLookupAt(fr *Frame, st *State, at *ssa.BasicBlock, atIdx int) func(string) (Val, bool) {
 	if fr.locals == nil {
 		fr.locals = localIndex(fr.fn)
 	}
@@ -63,7 +67,7 @@ func (s *Session) localLookup(fr *Frame, st *State, at *ssa.BasicBlock) func(str
 			ok := false
 			if d.blk == at {
 				_, isPhi := d.val.(*ssa.Phi)
-				ok = isPhi && !d.isAddr
+				ok = (isPhi && !d.isAddr) || d.idx < atIdx
 			} else if d.blk.Dominates(at) {
 				ok = true
 			}
@@ -103,9 +107,13 @@ func (s *Session) frameEnv(fr *Frame) map[string]Val {
 }
 
 func (s *Session) evalBoolClause(fr *Frame, c Clause, st *State, at *ssa.BasicBlock) (res T) {
+	return s.evalBoolClauseAt(fr, c, st, at, -1)
+}
+
+func (s *Session) evalBoolClauseAt(fr *Frame, c Clause, st *State, at *ssa.BasicBlock, atIdx int) (res T) {
 	se := &SpecEnv{sess: s, pkg: fr.fn.Pkg.Pkg, vars: s.frameEnv(fr), st: st, old: fr.old, fr: fr}
 	if at != nil {
-		se.lookup = s.localLookup(fr, st, at)
+		se.lookup = s.localLookupAt(fr, st, at, atIdx)
 	}
 	defer func() {
 		if r := recover(); r != nil {
@@ -190,8 +198,11 @@ func (e *Engine) verifyFunc(c *Contract) (rep *FuncReport) {
 	bindResults(env, fn.Signature, results)
 	fr.env = env
 	for i, en := range c.Ensures {
-		f := s.evalBoolClause(fr, en, out, nil)
-		s.addObl(&Obligation{Name: fmt.Sprintf("%s/post.%s", short, clauseName(en, i)), Kind: "post", Func: short, Src: "ensures " + en.Src, Guard: out.Reach, Formula: f})
+		subs := splitClause(en)
+		for _, sub := range subs {
+			f := s.evalBoolClause(fr, sub, out, nil)
+			s.addObl(&Obligation{Name: fmt.Sprintf("%s/post.%s", short, clauseNameSplit(en, i, sub, len(subs))), Kind: "post", Func: short, Src: "ensures " + sub.Src, Guard: out.Reach, Formula: f})
+		}
 	}
 	if c.ModGiven {
 		s.frameObligations(fr, c, out, short)
@@ -358,3 +369,37 @@ func (e *Engine) verifyLemma(l *Lemma) *FuncReport {
 }
 
 var _ = types.Typ
+
+// splitClause flattens top-level conjunctions so that every conjunct becomes its own obligation.
+func splitClause(c Clause) []Clause {
+	var out []Clause
+	var rec func(e SExpr)
+	rec = func(e SExpr) {
+		if b, ok := e.(*SBin); ok && b.Op == "&&" {
+			rec(b.L)
+			rec(b.R)
+			return
+		}
+		out = append(out, Clause{Label: c.Label, Src: c.Src, E: e})
+	}
+	rec(c.E)
+	if len(out) == 1 {
+		return []Clause{c}
+	}
+	for i := range out {
+		base := c.Label
+		out[i].Label = fmt.Sprintf("%s%c", base, 'a'+i)
+		out[i].Src = fmt.Sprintf("conjunct %d of: %s", i+1, c.Src)
+	}
+	return out
+}
+
+func clauseNameSplit(orig Clause, i int, sub Clause, nsub int) string {
+	if nsub == 1 {
+		return clauseName(orig, i)
+	}
+	if orig.Label != "" {
+		return sub.Label
+	}
+	return fmt.Sprintf("%d%s", i+1, sub.Label)
+}
